@@ -5,7 +5,7 @@ from lib import gen, sysrun
 from lib.sysrun import Case
 
 LEVEL = "proof"
-CHECKER = "lake build KalignModel.Props.C12 && lake env lean KalignModel/Audit/C12.lean"
+CHECKER = "lake build KalignModel.Props.C12Soft && lake env lean KalignModel/Audit/C12.lean"
 
 # the published 13-class reduction used for guide-tree distances (Steinegger & Soeding), as letters -> class representative
 RED = {}
@@ -25,8 +25,12 @@ def reduce(s, kind):
 
 
 def theorems():
-    p = os.path.join(C.LEAN, "KalignModel", "Props", "C12.theorems")
-    return [l.strip() for l in open(p) if l.strip() and not l.startswith("#")] if os.path.exists(p) else []
+    out = []
+    for f in ("C12.theorems", "C12Soft.theorems"):
+        p = os.path.join(C.LEAN, "KalignModel", "Props", f)
+        if os.path.exists(p):
+            out += [l.strip() for l in open(p) if l.strip() and not l.startswith("#")]
+    return out
 
 
 def premise_ok(recs, kind):
@@ -90,7 +94,7 @@ def run(ctx):
                         "satisfying the containment premise are judged; oracle: all copies of a repeated sequence have identical rows; non-trivial = distinct sets with >= 2 copies, "
                         ">= 1 other sequence and a gap inside the duplicated rows")
     thms = theorems()
-    ok = C.lean_obligations(ctx, "C12", thms) if thms else False
+    ok = C.lean_obligations(ctx, "C12", thms, module="C12Soft") if thms else False
     if not thms:
         ctx.obligations.append(dict(name="Props/C12 theorems", ok=False, why="theorem list missing"))
     kvh = C.build_harness("asan")
@@ -99,6 +103,12 @@ def run(ctx):
     if os.path.exists(os.path.join(C.VERIF, "tools", "gen_bpm.py")):
         diffs = C.unit_correspondence(ctx, kvh, C.gen_ops("gen_bpm.py", ctx.seed, "--no-exhaustive", "--random", 0, "--trees", 8 if ctx.quick else 200, "--matrices", 15 if ctx.quick else 300,
                                                           prefixes=("calc_distance", "dist_matrix", "upgma", "upgma_exact", "tree", "tree_exact")), "distances/upgma")
+    # the binary32 guide tree the C12Soft theorems are about: SoftF32 distance matrix / UPGMA / tree against the real routines
+    ty = os.path.join(C.CORPUS, "sliceY_treesoft.ops")
+    soft = C.gen_ops("gen_bpm.py", ctx.seed + 77, "--soft", "--trees", 10 if ctx.quick else 200, "--matrices", 15 if ctx.quick else 300)
+    if os.path.exists(ty):
+        soft += [l.strip() for l in open(ty) if l.strip() and not l.startswith("f32_lenterm")][:: (6 if ctx.quick else 1)]
+    diffs += C.unit_correspondence(ctx, kvh, soft, "softtree")
     cases = []
     for i in range(90 if ctx.quick else 900):
         kind = rng.choice(["dna", "rna", "protein"])
